@@ -237,22 +237,54 @@ theorem log_code_eq_filter (w : List String) (st : LogSt) (h : List Ev) :
       rw [logFrom, logEv_code_wake, ih, rawsOf]
       simp
 
-theorem fileAfter_eq_filter (w : List String) (file : Bytes) (h : List Ev) :
-    Code.fileAfter w file h = file ++ fileOf ((rawsOf h).filter fun raw => isWrite w (nameOf raw)) := by
-  induction h generalizing file with
-  | nil => simp [Code.fileAfter, rawsOf, fileOf]
-  | cons ev t ih =>
-    cases ev with
-    | cmd ve now obs raw =>
-      rw [Code.fileAfter, ih, rawsOf, List.filter_cons, Code.aofAppend]
-      split <;> simp [fileOf]
-    | wake db now left key =>
-      rw [Code.fileAfter, ih, rawsOf]
+/-- one `append_command_in_db` writes the entries `selFor … ++ [cmd]` and moves `last_db` as the tracking says -/
+theorem appendInDb_eq (w : List String) (sel wake : Bool) (st : LogSt) (file : Bytes) (d : Nat) (cmd : List Bytes) :
+    Code.appendInDb sel st.file file d cmd =
+      (file ++ fileOf (selFor (Cfg.tree w sel wake) st d ++ [cmd]), fileAfter (Cfg.tree w sel wake) st d) := by
+  unfold Code.appendInDb selFor fileAfter Cfg.tree
+  by_cases h : sel = true ∧ st.file ≠ d
+  · simp [h, h.1, fileOf]
+  · simp only [h, if_false]
+    simp [fileOf]
 
-/-- the file after a history = the serialisation of the log -/
-theorem fileAfter_eq (w : List String) (h : List Ev) :
-    Code.fileAfter w [] h = fileOf (log (Cfg.code w) h) := by
-  rw [fileAfter_eq_filter, log, log_code_eq_filter]
-  simp
+theorem fileStep_eq (w : List String) (sel wake : Bool) (hwf : isWrite w "SELECT" = false) (s : Code.FileSt) (ev : Ev) :
+    (Code.fileStep w sel wake s ev).file = s.file ++ fileOf (logEv (Cfg.tree w sel wake) ⟨s.conn, s.last⟩ ev).1 ∧
+    (⟨(Code.fileStep w sel wake s ev).conn, (Code.fileStep w sel wake s ev).last⟩ : LogSt) =
+      (logEv (Cfg.tree w sel wake) ⟨s.conn, s.last⟩ ev).2 := by
+  cases ev with
+  | cmd ve now obs raw =>
+    by_cases hw : isWrite w (nameOf raw) = true
+    · have hs : nameOf raw ≠ "SELECT" := by
+        intro h; rw [h, hwf] at hw; exact absurd hw (by decide)
+      have := appendInDb_eq w sel wake ⟨s.conn, s.last⟩ s.file s.conn raw
+      simp only at this
+      simp only [Code.fileStep, logEv, hw, if_true, hs, if_false, this]
+      simp [Cfg.tree, hw]
+    · have hw' : isWrite w (nameOf raw) = false := by simpa using hw
+      simp [Code.fileStep, logEv, hw', Cfg.tree, fileOf]
+  | wake db now left key =>
+    cases wake with
+    | false => simp [Code.fileStep, logEv, Cfg.tree, fileOf]
+    | true =>
+      have := appendInDb_eq w sel true ⟨s.conn, s.last⟩ s.file db (popCmd left key)
+      simp only at this
+      simp only [Code.fileStep, logEv, if_true, this]
+      simp [Cfg.tree]
+
+/-- the file after a history = what was there ++ the serialisation of the log -/
+theorem fileAfter_eq_from (w : List String) (sel wake : Bool) (hwf : isWrite w "SELECT" = false) (s : Code.FileSt) (h : List Ev) :
+    (Code.fileAfter w sel wake s h).file = s.file ++ fileOf (logFrom (Cfg.tree w sel wake) ⟨s.conn, s.last⟩ h) := by
+  induction h generalizing s with
+  | nil => simp [Code.fileAfter, logFrom, fileOf]
+  | cons ev t ih =>
+    have hstep := fileStep_eq w sel wake hwf s ev
+    have := ih (Code.fileStep w sel wake s ev)
+    simp only [Code.fileAfter, List.foldl_cons] at this ⊢
+    rw [this, hstep.1, hstep.2, logFrom, fileOf_append, List.append_assoc]
+
+theorem fileAfter_eq (w : List String) (sel wake : Bool) (hwf : isWrite w "SELECT" = false) (h : List Ev) :
+    (Code.fileAfter w sel wake {} h).file = fileOf (log (Cfg.tree w sel wake) h) := by
+  have := fileAfter_eq_from w sel wake hwf {} h
+  simpa [log] using this
 
 end Ferrous.Aof
